@@ -188,6 +188,7 @@ fn c18_o1_client_mode_silent() {
 }
 
 //@ ob: C18.O2
+//@ mem: 28
 //@ tier: quick
 //@ cap: 800
 //@ rss: 8.0
@@ -228,7 +229,7 @@ fn c18_o2_learning_from_requests() {
 }
 
 //@ ob: C18.O5a
-//@ tier: thorough
+//@ tier: off
 //@ cap: 2400
 //@ unwindset_raw: memcmp.0:22
 //@ standins: tracing lru vcoll
@@ -275,6 +276,57 @@ fn c18_o5a_address_vote() {
     kani::cover!(has_vote && before == Some(voted));
     kani::cover!(has_vote && before.is_none());
     std::mem::forget(done);
+    std::mem::forget(core);
+}
+
+//@ ob: C18.O5v
+//@ tier: quick
+//@ cap: 800
+//@ rss: 1.0
+//@ time: 23
+//@ unwindset_raw: memcmp.0:22
+//@ standins: tracing lru vcoll
+//@ desc: adaptive chain, step 1 (the decision itself, on a lookup object that is not consumed): when a finished lookup's best-voted address (ip AND port) differs from the recorded public address, or none is recorded, update_address_votes_from_iterative_query returns it for a confirming self-ping, records it and sets firewalled; when it equals the recorded address nothing is returned and firewalled / public_address are unchanged; without votes nothing changes
+//@ bounds: one lookup with 0 or 1 voted address (symbolic ip and port); public_address None / Some(symbolic ip and port; same ip with another port included); firewalled symbolic; unwind 4
+//@ stubs: Instant::now; getrandom::fill
+//@ functions: Core::update_address_votes_from_iterative_query, IterativeQuery::{add_address_vote,best_address}
+#[kani::proof]
+#[kani::stub(std::time::Instant::now, clock::now)]
+#[kani::stub(getrandom::fill, rnd::fill)]
+#[kani::unwind(4)]
+fn c18_o5v_address_vote_decision() {
+    clock::set(0);
+    let mut core = new_core(false, vec![]);
+    let target = Id::from(T5);
+    let mut q = IterativeQuery::new(Id::from(ME), target, GetRequestSpecific::FindNode(FindNodeRequestArguments { target }));
+    let vip: u32 = kani::any();
+    let vport: u16 = kani::any();
+    let voted = SocketAddrV4::new(vip.into(), vport);
+    let has_vote: bool = kani::any();
+    if has_vote {
+        q.add_address_vote(voted);
+    }
+    let has_before: bool = kani::any();
+    let same_ip: bool = kani::any();
+    let bip: u32 = kani::any();
+    let bport: u16 = kani::any();
+    let before: Option<SocketAddrV4> = if has_before { Some(SocketAddrV4::new((if same_ip { vip } else { bip }).into(), bport)) } else { None };
+    let fw: bool = kani::any();
+    core.public_address = before;
+    core.firewalled = fw;
+    let out = core.update_address_votes_from_iterative_query(&q);
+    if has_vote && before != Some(voted) {
+        assert!(out == Some(voted), "C18.O5a a new voted address is returned for a confirming self-ping");
+        assert!(core.firewalled && core.public_address == Some(voted), "C18.O5a new address recorded, node considered firewalled until confirmed");
+    } else {
+        assert!(out.is_none(), "C18.O5a no self-ping without a new address");
+        assert!(core.firewalled == fw && core.public_address == before, "C18.O5a flags unchanged without a new address");
+    }
+    kani::cover!(has_vote && has_before && same_ip && bport != vport);
+    kani::cover!(has_vote && before == Some(voted));
+    kani::cover!(has_vote && !has_before);
+    kani::cover!(!has_vote);
+    std::mem::forget(q);
     std::mem::forget(core);
 }
 
